@@ -1,7 +1,7 @@
 """C17: TCR values x start values x charge partitions of the same totals x interleaved register writes."""
 import random
 from . import common
-KEYS = ["res", "md", "q"]
+KEYS = ["res", "md", "q", "resclass", "er", "pc", "ccr", "sum"]       # the last five: programs through Cpu::run
 RULE = ("all 256 TCR values (CKS 4-7 select no internal clock: nothing counts) x random TCNT/TCORA/TCORB/TCSR start values respecting the side condition x charge sequences "
         "(1-255 each) around the divisor multiples, with interleaved CPU writes to TCR/TCNT/TCORx/TCSR and reads; the same totals are fed "
         "in several partitions; distinct = distinct (history, final registers, request queue)")
